@@ -264,7 +264,7 @@ def type_text(t, selfname=None):
 
 
 def resolve_self(s, selfname):
-    return re.sub(r"\bSelf\b", selfname, s)
+    return re.sub(r"(?<![A-Za-z0-9_])Self(?=as[A-Z<]|(?![A-Za-z0-9_]))", selfname, s)
 
 
 def canonical_template(im, fn, known_types):
@@ -442,9 +442,9 @@ def analyze_expanded(q, known_qtys, known_enums, templates):
         if "Output" in types:
             out = type_text(types["Output"]["ty"])
         row = {
-            "trait": tname, "self": selfty, "rhs": resolve_self(rhs, base_self) if rhs else "",
+            "trait": tname, "self": selfty, "rhs": resolve_self(rhs, selfty) if rhs else "",
             "rhs_written": rhs,
-            "output": resolve_self(out, base_self), "where": [nospace(w["text"]) for w in it["generics"]["where"]],
+            "output": resolve_self(out, selfty), "where": [nospace(w["text"]) for w in it["generics"]["where"]],
             "generics": [nospace(p["id"] + (":" + "+".join(p.get("bounds", [])) if p.get("bounds") else ""))
                          for p in it["generics"]["params"]],
             "template": "",
